@@ -212,6 +212,9 @@ func (f *FieldCopyFromGenerator) genObject() *j.Statement {
 					}
 
 					m.GenerateFields(g)
+				} else if f.IsNullable {
+					// A message with no fields is still present: obj.Nested = &Nested{}
+					g.Id(objFieldName).Op("=&").Id(f.i.WithType(f.GoElemTypeIndirect)).Values()
 				}
 			})
 		} else {
